@@ -108,6 +108,9 @@ def run(ctx, fb, cfg):
     check_hidden(ctx, lib, R + "K3.hidden-variables")
     for mod in ("plusfd", "minusfd", "timesfd"):
         fdrules.check_arith_propagator(ctx, lib, R + "K7c.sound-bounds", mod, what="bounds")
+    # the order propagator prunes exactly the values that have no partner (u > max v, v < min u): `<=` for
+    # `<` in a cut-off predicate drops the boundary answers (table shared with C16)
+    fdrules.check_ltefd(ctx, lib, R + "K7.ltefd")
     # a value stored twice in a domain is labelled twice: the representation invariant of
     # FiniteDomain::Sparse (strictly increasing values) is shared with C18
     import C18
